@@ -493,3 +493,194 @@ Section AvalProofs.
     - intros c Hc. apply btree_iter_lt in Hc. now apply column_avalanches_res_eq.
   Qed.
 End AvalProofs.
+
+(* ---------------------------------------------------------------- statements at the level of "never panics" *)
+Lemma ok_not_panic {A} (r : res A) v : r = Ok v -> r <> Panic.
+Proof. intros ->. discriminate. Qed.
+
+(* (1) *)
+Lemma contiguous_ranges_total_lemma (sig : Type) (ws : list (option sig)) :
+  N.of_nat (length ws) = NW ->
+  contiguous_ranges_res ws = Ok (contiguous_ranges ws) /\ contiguous_ranges_res ws <> Panic.
+Proof. intros W. pose proof (contiguous_ranges_res_eq ws W) as E. split; auto. eapply ok_not_panic; eauto. Qed.
+
+(* the pop / swap_remove(0) of the merge can never fail, whatever vector reaches them *)
+Lemma merge_seam_total_lemma (ranges : list (N * N)) : merge_seam_res ranges = Ok (merge_seam ranges).
+Proof. apply merge_seam_res_eq. Qed.
+
+(* (2) *)
+Lemma wire_block_total_lemma (sig : Type) (slen : sig -> nat) (ws : list (option sig)) (r : N * N) :
+  N.of_nat (length ws) = NW -> In r (contiguous_ranges ws) ->
+  range_to_indices r <> [] /\
+  length (block_sigs ws r) = length (range_to_indices r) /\
+  problem_dimensions_res slen ws r = Ok (max_slen slen (block_sigs ws r), range_to_len r) /\
+  y_matrix_res slen ws r = Ok (max_slen slen (block_sigs ws r), block_sigs ws r).
+Proof.
+  intros W Hin. pose proof (cr_good ws r Hin) as G. split. apply G. split. now apply block_sigs_length.
+  split. now apply problem_dimensions_res_eq. now apply y_matrix_res_eq.
+Qed.
+
+Lemma wire_range_deconvolution_total_lemma (sig amp : Type) (azero : amp) (slen : sig -> nat)
+      (solve : nat -> list sig -> list (list amp)) (wdec : list amp -> res (list amp))
+      (ws : list (option sig)) (r : N * N) :
+  faer_shape solve -> kernel_total wdec ->
+  N.of_nat (length ws) = NW -> In r (contiguous_ranges ws) ->
+  wire_range_deconvolution_res slen solve wdec ws r
+  = Ok (combine (range_to_indices r) (D_of slen solve wdec (block_sigs ws r))).
+Proof. intros F K W Hin. apply wire_range_deconvolution_res_eq; auto. now apply cr_good. Qed.
+
+(* (4) *)
+Lemma match_column_total_lemma (amp zt : Type) (azero : amp) (apos : amp -> bool) (agt : amp -> amp -> bool)
+      (pcmp : amp -> amp -> option comparison) (zf : N -> amp -> amp -> amp -> zt)
+      (sortW : list (N * amp) -> list (N * amp)) (sortP : list (zt * amp) -> list (zt * amp))
+      (num : amp -> Prop) (column : N) (wire_inputs pci : list (list amp)) :
+  cmp_laws apos agt pcmp num ->
+  length wire_inputs = 8%nat -> N.of_nat (length pci) = NROWS ->
+  let (first, last) := pad_column_to_wires column in
+  match_column_inputs_res azero apos agt pcmp zf sortW sortP (Nseq first (last - first)) wire_inputs pci
+  = Ok (match_column_inputs azero apos agt zf sortW sortP (Nseq first (last - first)) wire_inputs pci).
+Proof.
+  intros L L8 Lp. pose proof (pctw_in_bounds column) as [B1 B2].
+  destruct (pad_column_to_wires column) as [first last]. cbn [fst snd] in B1, B2.
+  apply (match_column_inputs_res_eq azero apos agt pcmp zf sortW sortP num L); auto.
+  - intros X. rewrite X in L8. discriminate.
+  - apply Forall_forall. intros i Hi. apply Nseq_in in Hi. unfold NW in *. lia.
+Qed.
+
+(* (5), for any sample type *)
+Lemma avalanches_total_lemma (sig amp zt : Type) (azero : amp) (apos : amp -> bool) (agt : amp -> amp -> bool)
+      (pcmp : amp -> amp -> option comparison) (zf : N -> amp -> amp -> amp -> zt) (slen : sig -> nat)
+      (solve : nat -> list sig -> list (list amp)) (wdec : list amp -> res (list amp)) (pdec : sig -> res (list amp))
+      (sortW : list (N * amp) -> list (N * amp)) (sortP : list (zt * amp) -> list (zt * amp))
+      (num : amp -> Prop) (ev : main_event sig) :
+  faer_shape solve -> kernel_total wdec -> kernel_total pdec -> cmp_laws apos agt pcmp num ->
+  event_shape ev ->
+  avalanches_res azero apos agt pcmp zf slen solve wdec pdec sortW sortP (wire_signals ev) (pad_signals ev)
+  = Ok (avalanches azero apos agt zf (D_of slen solve wdec) (P_of pdec) sortW sortP (wire_signals ev) (pad_signals ev))
+  /\ timestamp_res ev = Ok (trigger_timestamp ev).
+Proof.
+  intros F KW KP L (S1 & S2 & S3). split; [|reflexivity].
+  apply (avalanches_res_eq azero apos agt pcmp zf slen solve wdec pdec sortW sortP num F KW KP L); auto.
+Qed.
+
+(* ---------------------------------------------------------------- binary64 *)
+Definition f64_num (x : float) : Prop := Prim2SF x <> S754_nan.
+
+Lemma SFltb_nan_r x : SFltb x S754_nan = false.
+Proof. destruct x; reflexivity. Qed.
+Lemma SFltb_nan_l y : SFltb S754_nan y = false.
+Proof. reflexivity. Qed.
+Lemma SFcompare_num x y : x <> S754_nan -> y <> S754_nan -> SFcompare x y <> None.
+Proof. destruct x, y; cbn [SFcompare]; intros; try congruence; discriminate. Qed.
+
+Lemma f64_cmp_laws : cmp_laws fpos fgt f_pcmp f64_num.
+Proof.
+  split; [|split].
+  - intros v H E. unfold fpos in H. rewrite FloatAxioms.ltb_spec, E, SFltb_nan_r in H. discriminate.
+  - intros a b H E. unfold fgt in H. rewrite FloatAxioms.ltb_spec, E, SFltb_nan_r in H. discriminate.
+  - intros a b Ha Hb. unfold f_pcmp. rewrite FloatAxioms.compare_spec.
+    pose proof (SFcompare_num _ _ Ha Hb) as H.
+    destruct (SFcompare (Prim2SF a) (Prim2SF b)) as [[| |]|]; cbn; congruence.
+Qed.
+
+(* (3) imported from C17 (deconv_f64_all_inputs_lemma): for ALL binary64 waveforms - in particular for whatever
+   column the cross-talk solve returned - the deconvolved vector is empty or has one entry per sample, each
+   finite, with a clear sign bit, and not a NaN *)
+Lemma ls_deconv_no_nan_lemma (signal response : list float) (offs las : list nat) (out : list float) :
+  ls_deconv_f signal response offs las = Ok out ->
+  (out = [] \/ length out = length signal) /\
+  Forall (fun x => f_fin x /\ f_ge0 x /\ f64_num x) out.
+Proof.
+  intros H. destruct (deconv_f64_all_inputs_lemma _ _ _ _ _ H) as (A & B & C). split; auto.
+  rewrite Forall_forall in *. intros x Hx. split; auto. split; auto.
+  specialize (B x Hx). unfold f_fin, f64_num in *. destruct (Prim2SF x); cbn in B; congruence.
+Qed.
+
+(* ls_deconvolution returns (no panic) when every sweep of the grid does *)
+Section LsTotal.
+  Variable F : Type.
+  Variable inf : F.
+  Variable ltb : F -> F -> bool.
+  Variable nn : list F -> list F -> nat -> nat -> res (F * list F).
+  Variables signal response : list F.
+
+  Lemma ls_inner_total las : forall best off,
+    (forall la, In la las -> exists r inp, nn signal response off la = Ok (r, inp)) ->
+    exists b, ls_inner F ltb nn signal response best off las = Ok b.
+  Proof.
+    induction las as [|la t IH]; intros best off H; cbn [ls_inner]. eauto.
+    destruct (H la (or_introl eq_refl)) as (r & inp & E). unfold ls_step. rewrite E. cbn [bind].
+    apply IH. intros; apply H; cbn; auto.
+  Qed.
+
+  Lemma ls_outer_total offs las : forall best,
+    (forall off la, In off offs -> In la las -> exists r inp, nn signal response off la = Ok (r, inp)) ->
+    exists b, ls_outer F ltb nn signal response best offs las = Ok b.
+  Proof.
+    induction offs as [|off t IH]; intros best H; cbn [ls_outer]. eauto.
+    destruct (ls_inner_total las best off) as [b E]. { intros; apply H; cbn; auto. }
+    rewrite E. cbn [bind]. apply IH. intros; apply H; cbn; auto.
+  Qed.
+
+  Lemma ls_deconv_total offs las :
+    (forall off la, In off offs -> In la las -> exists r inp, nn signal response off la = Ok (r, inp)) ->
+    exists out, ls_deconv F inf ltb nn signal response offs las = Ok out.
+  Proof.
+    intros H. unfold ls_deconv. destruct (ls_outer_total offs las (inf, []) H) as [b E]. rewrite E. cbn [bind]. eauto.
+  Qed.
+End LsTotal.
+
+Lemma ls_deconv_f_total (response : list float) (offs las : list nat) :
+  response_windows_ok response offs las ->
+  forall signal, exists out, ls_deconv_f signal response offs las = Ok out.
+Proof.
+  intros R signal. apply ls_deconv_total. intros off la Ho Hl.
+  destruct (R off la Ho Hl) as (rwin & S & Ng & L1).
+  destruct (deconv_lengths_lemma float 0%float neg_zero PrimFloat.add PrimFloat.sub PrimFloat.mul PrimFloat.div
+              f_min f_neg f_nonneg signal response off la) as (_ & _ & T & _).
+  exact (T rwin S Ng L1).
+Qed.
+
+(* (5) binary64: every hypothesis that remains is in the statement *)
+Lemma avalanches_f64_total_lemma (zf : N -> float -> float -> float -> float)
+      (solve : nat -> list (list float) -> list (list float)) (wire_response pad_response : list float)
+      (sortW : list (N * float) -> list (N * float)) (sortP : list (float * float) -> list (float * float))
+      (ev : main_event (list float)) :
+  faer_shape solve ->
+  response_windows_ok wire_response (range_incl 0 1) (range_incl 3 12) ->
+  response_windows_ok pad_response (range_incl 3 5) (range_incl 7 12) ->
+  event_shape ev ->
+  (exists avs, avalanches_res_f64 zf solve wire_response pad_response sortW sortP (wire_signals ev) (pad_signals ev)
+               = Ok avs) /\
+  avalanches_res_f64 zf solve wire_response pad_response sortW sortP (wire_signals ev) (pad_signals ev) <> Panic /\
+  timestamp_res ev = Ok (trigger_timestamp ev).
+Proof.
+  intros F RW RP S.
+  destruct (avalanches_total_lemma (list float) float float 0%float fpos fgt f_pcmp zf (@length float) solve
+              (fun c => wire_deconv_f c wire_response) (fun s => pad_deconv_f s pad_response) sortW sortP
+              f64_num ev F) as [E T]; auto.
+  - intros c. apply (ls_deconv_f_total _ _ _ RW).
+  - intros s. apply (ls_deconv_f_total _ _ _ RP).
+  - apply f64_cmp_laws.
+  - unfold avalanches_res_f64. rewrite E. split. eauto. split. discriminate. exact T.
+Qed.
+
+(* ---------------------------------------------------------------- the hypotheses are satisfiable; sharpness *)
+Definition solve_zero (i : nat) (sigs : list (list float)) : list (list float) :=
+  map (fun _ => repeat 0%float i) sigs.
+Lemma solve_zero_shape : faer_shape solve_zero.
+Proof.
+  intros i sigs. unfold solve_zero. split. apply map_length.
+  apply Forall_forall. intros c Hc. apply in_map_iff in Hc as (x & <- & _). apply repeat_length.
+Qed.
+
+Definition resp18m : list float := repeat (-1)%float 18.
+Ltac solve_windows :=
+  intros off la Ho Hl; cbn in Ho, Hl;
+  repeat (destruct Ho as [<-|Ho]; [|try (exfalso; exact Ho)]);
+  repeat (destruct Hl as [<-|Hl]; [|try (exfalso; exact Hl)]);
+  (eexists; split; [vm_compute; reflexivity|split; [vm_compute; reflexivity|lia]]).
+Lemma resp18m_wire : response_windows_ok resp18m (range_incl 0 1) (range_incl 3 12).
+Proof. solve_windows. Qed.
+Lemma resp18m_pad : response_windows_ok resp18m (range_incl 3 5) (range_incl 7 12).
+Proof. solve_windows. Qed.
